@@ -39,6 +39,8 @@ def gen_req(g, i):
     headers = [[nm, header_value(g)] for nm in g.sample(HNAMES, g.randint(0, 3))]
     mode = "none" if method in ("GET", "HEAD") else g.choice(["none", "body", "body", "data", "fargs"])
     spec = {"method": method, "path": path, "qargs": qargs, "headers": headers, "mode": mode}
+    if g.random() < 0.3:      # query arguments written into the path string itself, form-encoded ('+' for a space, %XX), as urlencode does
+        spec["pathq"] = [[nm, g.choice(VALS + ["red shoes", "a+b", "50% off", "x y+z"])] for nm in g.sample(["pq1", "pq2", "pq3"], g.randint(1, 2))]
     if mode == "body":
         spec["body"] = bytes(g.randrange(256) for _ in range(g.choice([1, 2, 17, g.randint(1, 60)])))
     elif mode == "data":
@@ -96,7 +98,7 @@ class C30(Check):
     assumptions = ["inputs whose result the statement does not determine are not generated: GET/HEAD with a body, header values outside latin-1 "
                    "or with CR/LF or surrounding whitespace, multipart forms, a body for HEAD responses",
                    "server-side query / form arguments are read the way a WSGI application does: urllib.parse.parse_qsl(keep_blank_values=True)"]
-    required_probes = ["fargs", "data", "body", "qargs", "error", "stream", "unicode-path", "partial-delivery", "bodyless-without-length-then-another", "error-header"]
+    required_probes = ["fargs", "data", "body", "qargs", "error", "stream", "unicode-path", "partial-delivery", "bodyless-without-length-then-another", "error-header", "query-in-path"]
     quick_runs = 8000
     thorough_runs = 400000
     shrink_fields = ["schedule", "reqs"]
@@ -148,6 +150,10 @@ class C30(Check):
             try:
                 for r in reqs:
                     kw = dict(method=r["method"], path=r["path"], headers=dict((k, v) for k, v in r["headers"]))
+                    if r.get("pathq"):
+                        from urllib.parse import urlencode
+                        kw["path"] = r["path"] + "?" + urlencode([(k, v) for k, v in r["pathq"]])
+                        out.probe("query-in-path")
                     from ioflo.aid.odicting import odict
                     kw["qargs"] = odict((k, v) for k, v in r["qargs"])
                     if r["mode"] == "body":
@@ -215,8 +221,12 @@ class C30(Check):
             if env.get("PATH_INFO") != rq["path"]:
                 return bad("path", "path %r != %r" % (env.get("PATH_INFO"), rq["path"]))
             q = parse_qsl(env.get("QUERY_STRING", ""), keep_blank_values=True)
-            if q != [(k, v) for k, v in rq["qargs"]]:
-                return bad("query", "query args %r (QUERY_STRING %r) != %r" % (q, env.get("QUERY_STRING"), rq["qargs"]))
+            want_q = [(k, v) for k, v in rq["qargs"]]
+            if rq.get("pathq"):     # arguments from the path string and from the dict: every one arrives with its value (their order is not fixed)
+                want_q = sorted(want_q + [(k, v) for k, v in rq["pathq"]])
+                q = sorted(q)
+            if q != want_q:
+                return bad("query", "query args %r (QUERY_STRING %r) != %r" % (q, env.get("QUERY_STRING"), want_q))
             for k, v in rq["headers"]:
                 key = "HTTP_" + k.upper().replace("-", "_")
                 if env.get(key) != v:
